@@ -132,7 +132,7 @@ class TVec(DVec):
             return TVec([M.arith(op, p, q) for p, q in zip(x, y)], "(%s)" % op)
         if x is not None and is_num(b):
             return TVec([M.arith(op, p, b) for p in x], "(%s)" % op)
-        if y is not None and is_num(a) and op in ("*",):
+        if y is not None and is_num(a) and op in ("*", "+", "-"):
             return TVec([M.arith(op, a, q) for q in y], "(%s)" % op)
         raise Unab("vector arithmetic %s on %s and %s" % (op, show_val(a), show_val(b)))
 
